@@ -935,3 +935,55 @@ pub fn run_history(c: &VCase, rec: &Rec, value_clauses: bool) -> Result<HistoryS
 }
 
 pub fn _unused(_: Asset, _: TResult) {}
+
+/// Applies operations to a vault world without judging them (used to reach arbitrary states for
+/// probes of other properties; C05/C06/C07 judge the same operations).
+pub fn apply_ops_unjudged(vw: &mut VaultWorld, ops: &[VOp]) {
+    for op in ops {
+        let bal = vw.w.bal(&vw.info, &vw.vault);
+        match op {
+            VOp::Deposit { user, amt } | VOp::DepositThenWithdraw { user, amt } => {
+                let usr = vw.user(*user);
+                let amount = resolve(amt, bal, vw.w.bal(&vw.info, &usr));
+                let _ = vw.deposit(&usr, amount);
+            }
+            VOp::Withdraw { user, k } => {
+                let usr = vw.user(*user);
+                let shares = gen::frac(*k, vw.w.cw20_balance(&vw.lp, &usr));
+                let _ = vw.withdraw(&usr, shares);
+            }
+            VOp::Loan { amt, program } => {
+                let amount = resolve(amt, bal, 0);
+                let caller = vw.user(0);
+                let _ = vw.start_loan(&caller, amount, program);
+            }
+            VOp::RouterLoan { user, amt, proceeds, .. } => {
+                let usr = vw.user(*user);
+                let amount = resolve(amt, bal, 0);
+                let pay = resolve(proceeds, bal / 16, 0);
+                let router = vw.router.clone();
+                let msgs = vec![vw.purse_pay_msg(pay, &router)];
+                let _ = vw.router_loan(&usr, amount, msgs);
+            }
+            VOp::Collect { caller } => {
+                let who = match *caller {
+                    4 => vw.w.owner.clone(),
+                    5 => vw.borrower.clone(),
+                    c => vw.user(c),
+                };
+                let _ = vw.collect(&who);
+            }
+            VOp::SetFees { fees } => {
+                let _ = vw.set_fees([fees[0].u128(), fees[1].u128(), fees[2].u128()]);
+            }
+            VOp::Donate { user, amt } => {
+                let usr = vw.user(*user);
+                let amount = resolve(amt, bal, vw.w.bal(&vw.info, &usr)).min(1u128 << 110);
+                let info = vw.info.clone();
+                let v = vw.vault.clone();
+                let _ = vw.w.transfer(&usr, &v, &info, amount);
+            }
+            VOp::AdvanceBlock => vw.w.advance(6_000_000_000, 1),
+        }
+    }
+}
